@@ -678,6 +678,8 @@ class Simulation:
     def _connect_measurements_fct(self, module_name, func_name, extra_kwargs=None, priority=0):
         if extra_kwargs is None:
             extra_kwargs = {}
+        else:
+            extra_kwargs = dict(extra_kwargs)  # (modified below: leave the options, which get saved, as the user wrote them)
         wrap = False
         if func_name.startswith('wrap'):
             wrap = True
